@@ -121,6 +121,9 @@ class Case:
         a = [lit(x) for x in self.a]
         k = [str(x) for x in self.k]
         op = self.op
+        if op.startswith("pad:"):
+            base = Case(op[4:], self.a, self.k, self.s)
+            return "%s  ; with every integer operand x replaced by (- (+ x (expt 2 4700)) (expt 2 4700)): same value, spare high words" % base.scheme()
         if op == "keep":
             return "(let ((x %s) (y %s)) (list (%s x y) x y))  ; operands must be unchanged afterwards" % (a[0], a[1], self.s)
         if op == "neg":
@@ -158,6 +161,9 @@ class Case:
         (a ratio whose denominator has the magnitude of the most negative fixnum) -- never from a verdict."""
         if self.key:
             return self.key
+        if self.op.startswith("pad:"):
+            k = Case(self.op[4:], self.a, self.k, self.s).structural_key(fixbits, out)
+            return k + ":spare-words" if k.startswith(self.op[4:] + ":") else k
         if self.op == "keep":
             if self.s in ("/", "floor-quotient") and self.a[1] < 0:
                 return "operands-unchanged:%s:negative-divisor" % self.s
@@ -276,7 +282,7 @@ DIV_CERT = ("remainder", "truncate-remainder", "modulo", "floor-remainder")
 def make_event(c, out):
     """Recorded call -> trace event (one shape for every event).  err: 0 value(s) returned, 1 Scheme error,
     2 a result that is not an exact number / boolean / string as expected, 3 no answer (crash, hang)."""
-    ev = {"e": "Call", "id": c.id, "op": c.op, "a": [qval(x) for x in c.a], "k": list(c.k),
+    ev = {"e": "Call", "id": c.id, "op": c.op[4:] if c.op.startswith("pad:") else c.op, "a": [qval(x) for x in c.a], "k": list(c.k),
           "cs": [ord(ch) for ch in c.s], "f": [], "r": [], "c": [], "err": 0, "base": c.s if c.op == "keep" else ""}
     if out is None or "crash" in out:
         ev["err"] = 3
@@ -306,7 +312,7 @@ def make_event(c, out):
         ev["cs"] = [ord(ch) for ch in out["s"]]
     # certificates
     ints = [x.numerator for x in c.a]
-    bop = c.s if c.op == "keep" else c.op
+    bop = c.s if c.op == "keep" else (c.op[4:] if c.op.startswith("pad:") else c.op)
     if bop in DIV_CERT and vals and ints[1] != 0:
         r = vals[0][0]
         ev["c"] = [ival((ints[0] - r) // ints[1])]
@@ -328,6 +334,8 @@ def make_event(c, out):
 
 def cost(c):
     """Rough TLC evaluation cost of a case (digit products), for balancing shards."""
+    if c.op.startswith("pad:"):
+        return cost(Case(c.op[4:], c.a, c.k, c.s))
     n = [max(1, abs(x.numerator).bit_length() // 10 + 1) + max(0, x.denominator.bit_length() // 10) for x in c.a] or [1]
     m = max(n)
     if c.op in ("+", "-", "=", "<", ">", "<=", ">=", "neg", "abs") and all(x.denominator == 1 for x in c.a):
